@@ -309,9 +309,20 @@ func genScript(t *rapid.T, kind string, items int, id *NodeID, persona string, f
 				forced2++
 			}
 		}
+		// a purely tolerated answer names every tolerated reason of the client where there is room
+		forcedTol2 := -1
+		if mode == "tolerated" && len(valid) > 1 && items > 1 && rapid.Bool().Draw(t, "allReasons") {
+			forcedTol2 = (forced + 1) % items
+		}
 		for i := range n.Items {
 			var what string
 			switch {
+			case i == forcedTol2:
+				n.Items[i] = ItemDisp{D: "tol", T: valid[1]}
+				continue
+			case i == forced && forcedTol2 >= 0:
+				n.Items[i] = ItemDisp{D: "tol", T: valid[0]}
+				continue
 			case i == forced && mode == "real":
 				what = "real"
 			case i == forced:
@@ -1228,7 +1239,9 @@ func run(c *Case) *obs {
 			no.done = sn.inflight == 0 && sn.ncalls > 0
 			no.finished = sn.lastLeave
 			no.ncalls = sn.ncalls
-			if sn.inflight != 0 && !abandoned {
+			if sn.inflight != 0 && !abandoned && c.Steps[s].Cancel == "" {
+				// (in a step whose context was cancelled a node may be called arbitrarily late or
+				// never; such a call is simply not part of the judgement: done == false)
 				o.harness = "a node call is still in flight after release"
 			}
 		}
